@@ -2,9 +2,12 @@
    by the hand-written model (Model.v) and by the functions translated from the current
    source (gen/C20_Translated.v through TransInst.v); [run] prints the observation when
    the two agree and (99 model translated) otherwise, so that a line equal to the
-   implementation's observation means that BOTH gave it. *)
+   implementation's observation means that BOTH gave it.  When the source has left the
+   translator's subset (gen/C20_Translated.v is then a stub with translation_available =
+   false, and the proof step is already broken) the hand model is compared alone. *)
 From Coq Require Import ZArith List Bool.
 From AK Require Export Common.Sx Common.Err C20.Model C20.PyLib C20.TransInst.
+From AK Require Import gen.C20_Translated.
 Import ListNotations.
 
 Inductive case :=
@@ -80,5 +83,7 @@ Fixpoint sx_eqb (a b : sx) {struct a} : bool :=
 
 Definition run (c : case) : sx :=
   let m := run_model c in
-  let t := run_translated c in
-  if sx_eqb m t then m else SL [SZ 99; m; t].
+  if translation_available then
+    let t := run_translated c in
+    if sx_eqb m t then m else SL [SZ 99; m; t]
+  else m.
